@@ -92,6 +92,32 @@ theorem C12_frame_clone_of_unresolved (f : Frame) (h1 : f.overRes = false) (h2 :
   cases f
   simp_all [Frame.clone]
 
+/-- **Same frame forest, same outlines.**  The frames of a framer nobody resolved (a moot) are cloned to an equal list of
+frames — over names, the primary-under choices of the `under` verb (`.unders`), next names, aux links, items — so
+everything `Framer.resolve` computes from them (the attachment of unders to overs in `resolveOverLinks`, every
+`frame.outline` of `traceOutline`, hence the frames entered from the first frame or by a transition to an over frame)
+is computed from the same input for the clone as for the original. -/
+theorem C12_clone_same_frame_forest (frames : List Frame)
+    (h : ∀ f ∈ frames, f.overRes = false ∧ f.outline = [] ∧ f.auxes = []) :
+    frames.map Frame.clone = frames ∧
+    (∀ n, traceOutline (frames.map Frame.clone) n = traceOutline frames n) ∧
+    (∀ self fuel under climbed, climbOver self fuel under climbed (frames.map Frame.clone)
+        = climbOver self fuel under climbed frames) := by
+  have e : frames.map Frame.clone = frames := by
+    induction frames with
+    | nil => rfl
+    | cons f rest ih =>
+      rw [List.map_cons, C12_frame_clone_of_unresolved f (h f (by simp)).1 (h f (by simp)).2.1 (h f (by simp)).2.2,
+          ih (fun g hg => h g (by simp [hg]))]
+  exact ⟨e, fun n => by rw [e], fun a b c d => by rw [e]⟩
+
+example : (traceOutline
+    [{ name := "top", inode := "", over := none, next := none, unders := ["c", "a", "b"], links := [], items := [] },
+     { name := "a", inode := "", over := some "top", next := none, links := [], items := [] },
+     { name := "b", inode := "", over := some "top", next := none, links := [], items := [] },
+     { name := "c", inode := "", over := some "top", next := none, links := [], items := [] }] "top").toOption
+    = some ["top", "c"] := by decide +kernel
+
 /-- **Framer.clone copies the definition**: a successful clone has the requested name and tag, the original's first
 frame, moots, inode and the clones of all its frames in order; it is a new object (`uid` never used before), not yet
 presolved or resolved, `done`, not active, and it is the object registered under its name. -/
@@ -459,6 +485,159 @@ example : Sim (prefixMap "qma") "qma" exP "a0" 2 [] (exHouse "qma" 2) (exHouse "
     { ctl := {}, mem := fun _ => none, now := 3 } :=
   { obj := ⟨_, rfl, rfl, rfl, rfl, rfl⟩, mem := fun _ => rfl, now := rfl, out := rfl, rest := Rest.refl _ _ _ }
 
+/-! ### whole histories -/
+
+/-- what happens to an auxiliary framer over a run: calls from its main frame, and the clock moving on -/
+inductive Step | call (e : Entry) | tick (t : Int)
+
+def runSteps (lo : Ops) (u : Nat) : List Step → St → Except Err St
+  | [], s => .ok s
+  | .call e :: rest, s =>
+    match callEntry lo u e s with
+    | .error er => .error er
+    | .ok s' => runSteps lo u rest s'
+  | .tick t :: rest, s => runSteps lo u rest { s with now := t }
+
+def lrunSteps (P : List Frame) (first : String) : List Step → LSt → Except Err LSt
+  | [], l => .ok l
+  | .call e :: rest, l =>
+    match lcallEntry P first e l with
+    | .error er => .error er
+    | .ok l' => lrunSteps P first rest l'
+  | .tick t :: rest, l => lrunSteps P first rest { l with now := t }
+
+/-- the refinement over any history of calls and clock ticks -/
+theorem C12_leaf_history_refines_partial (lo : Ops) (ι : String → String) (name : String) (P : List Frame)
+    (first : String) (u : Nat) (base : List String) (hι : Resolves ι name) (hP : Leafy P) (steps : List Step) :
+    ∀ (s0 s : St) (l : LSt), Sim ι name P first u base s0 s l →
+      CorrSt (fun s' l' => ∃ s0', Sim ι name P first u base s0' s' l') (runSteps lo u steps s) (lrunSteps P first steps l) := by
+  induction steps with
+  | nil => intro s0 s l h; exact ⟨s0, h⟩
+  | cons st rest ih =>
+    intro s0 s l h
+    cases st with
+    | call e =>
+      simp only [runSteps, lrunSteps]
+      have c := C12_leaf_refines_partial lo ι name P first u base s0 hι hP e s l h
+      cases r : callEntry lo u e s with
+      | error er =>
+        cases r' : lcallEntry P first e l with
+        | error er' => rw [r, r'] at c; exact c
+        | ok l' => rw [r, r'] at c; exact c.elim
+      | ok s' =>
+        cases r' : lcallEntry P first e l with
+        | error er' => rw [r, r'] at c; exact c.elim
+        | ok l' => rw [r, r'] at c; exact ih s0 s' l' c
+    | tick t =>
+      simp only [runSteps, lrunSteps]
+      exact ih { s with now := t } { s with now := t } { l with now := t }
+        { obj := h.obj, mem := h.mem, now := rfl, out := h.out, rest := Rest.refl ι u _ }
+
+/-- **A clone runs like its original over a whole history.**  Two framer objects without auxiliaries with the same
+leaf script (seen through their own resolution maps), started in a common situation and given the same history of
+calls and clock ticks — in two different houses or in one — either both fail with the same error at the same call or
+end in a common situation: same control state, same values of all relative shares, and the same events emitted since
+the start, each under its own name. -/
+theorem C12_clone_history_like_original_partial
+    (lo1 lo2 : Ops) (ι1 ι2 : String → String) (name1 name2 : String) (P : List Frame) (first : String)
+    (u1 u2 : Nat) (base1 base2 : List String) (s01 s02 : St) (h1ι : Resolves ι1 name1) (h2ι : Resolves ι2 name2)
+    (hP : Leafy P) (steps : List Step) (s1 s2 : St) (l : LSt)
+    (h1 : Sim ι1 name1 P first u1 base1 s01 s1 l) (h2 : Sim ι2 name2 P first u2 base2 s02 s2 l) :
+    match runSteps lo1 u1 steps s1, runSteps lo2 u2 steps s2 with
+    | .ok s1', .ok s2' => ∃ (evs : List (String × Ctxt × String)),
+        s1'.out = evs.map (render name1) ++ base1 ∧ s2'.out = evs.map (render name2) ++ base2 ∧
+        (∀ k, s1'.read (ι1 k) = s2'.read (ι2 k)) ∧
+        (∀ o1 o2, s1'.get? u1 = some o1 → s2'.get? u2 = some o2 → o1.ctl = o2.ctl)
+    | .error e1, .error e2 => e1 = e2
+    | _, _ => False := by
+  have c1 := C12_leaf_history_refines_partial lo1 ι1 name1 P first u1 base1 h1ι hP steps s01 s1 l h1
+  have c2 := C12_leaf_history_refines_partial lo2 ι2 name2 P first u2 base2 h2ι hP steps s02 s2 l h2
+  cases r : lrunSteps P first steps l with
+  | error er =>
+    rw [r] at c1 c2
+    cases r1 : runSteps lo1 u1 steps s1 with
+    | ok s1' => rw [r1] at c1; exact c1.elim
+    | error e1 =>
+      cases r2 : runSteps lo2 u2 steps s2 with
+      | ok s2' => rw [r2] at c2; exact c2.elim
+      | error e2 =>
+        rw [r1] at c1; rw [r2] at c2
+        exact c1.trans c2.symm
+  | ok l' =>
+    rw [r] at c1 c2
+    cases r1 : runSteps lo1 u1 steps s1 with
+    | error e1 => rw [r1] at c1; exact c1.elim
+    | ok s1' =>
+      cases r2 : runSteps lo2 u2 steps s2 with
+      | error e2 => rw [r2] at c2; exact c2.elim
+      | ok s2' =>
+        rw [r1] at c1; rw [r2] at c2
+        obtain ⟨_, g1⟩ := c1
+        obtain ⟨_, g2⟩ := c2
+        refine ⟨l'.ev, g1.out, g2.out, fun k => (g1.mem k).trans (g2.mem k).symm, ?_⟩
+        intro o1 o2 e1 e2
+        obtain ⟨o1', q1, _, _, _, q1c⟩ := g1.obj
+        obtain ⟨o2', q2, _, _, _, q2c⟩ := g2.obj
+        rw [q1] at e1; rw [q2] at e2
+        injection e1 with e1; injection e2 with e2
+        subst e1 e2
+        rw [q1c, q2c]
+
+/-- **Clones do not interfere.**  Two framer objects without auxiliaries in ONE house whose references resolve to
+disjoint sets of shares (as those of framers with different names do: `C12_distinct_names_disjoint`): whatever entry
+point runs the first, the second is afterwards in exactly the situation it was in (same control state, same values
+of all its shares, same clock).  So each clone runs as if the other were not there. -/
+theorem C12_leaf_clones_do_not_interfere (lo : Ops)
+    (ι1 ι2 : String → String) (name1 name2 : String) (P1 P2 : List Frame) (first1 first2 : String) (u1 u2 : Nat)
+    (base1 base2 : List String) (s02 : St) (h1ι : Resolves ι1 name1) (hP1 : Leafy P1)
+    (hdisj : ∀ k k', ι1 k ≠ ι2 k') (hne : u2 ≠ u1) (e : Entry) (s s' : St) (l1 l2 : LSt)
+    (h1 : Sim ι1 name1 P1 first1 u1 base1 s s l1) (h2 : Sim ι2 name2 P2 first2 u2 base2 s02 s l2)
+    (hc : callEntry lo u1 e s = .ok s') :
+    Sim ι2 name2 P2 first2 u2 s'.out s' s' { l2 with ev := [] } := by
+  have c1 := C12_leaf_refines_partial lo ι1 name1 P1 first1 u1 base1 s h1ι hP1 e s l1 h1
+  rw [hc] at c1
+  cases r : lcallEntry P1 first1 e l1 with
+  | error er => rw [r] at c1; exact c1.elim
+  | ok l1' =>
+    rw [r] at c1
+    have hobj : s'.get? u2 = s.get? u2 := c1.rest.others u2 hne
+    have hmem : ∀ k, s'.read (ι2 k) = s.read (ι2 k) := fun k => c1.rest.shares (ι2 k) (fun k' => hdisj k' k)
+    have hst := C12_situation_stable ι2 name2 P2 first2 u2 base2 s02 s s' l2 h2 hobj hmem
+    have hnow : s'.now = l2.now := by rw [c1.rest.now]; exact h2.now
+    rw [hnow] at hst
+    exact hst
+
+theorem append_sep_inj {α : Type} (c : α) : ∀ (l1 l2 r1 r2 : List α), c ∉ l1 → c ∉ l2 →
+    l1 ++ c :: r1 = l2 ++ c :: r2 → l1 = l2
+  | [], [], _, _, _, _, _ => rfl
+  | [], b :: l2, r1, r2, _, h2, h => by
+    simp at h
+    exact absurd h.1 (fun e => h2 (by simp [e]))
+  | a :: l1, [], r1, r2, h1, _, h => by
+    simp at h
+    exact absurd h.1 (fun e => h1 (by simp [e]))
+  | a :: l1, b :: l2, r1, r2, h1, h2, h => by
+    simp at h
+    have := append_sep_inj c l1 l2 r1 r2 (fun e => h1 (by simp [e])) (fun e => h2 (by simp [e])) h.2
+    rw [h.1, this]
+
+/-- framers with different (dot-free) names resolve their relative references to disjoint sets of shares -/
+theorem C12_distinct_names_disjoint (n1 n2 : String) (hn : n1 ≠ n2) (h1 : '.' ∉ n1.toList) (h2 : '.' ∉ n2.toList)
+    (k k' : String) : prefixMap n1 k ≠ prefixMap n2 k' := by
+  intro e
+  unfold prefixMap at e
+  simp only [String.append_assoc] at e
+  have e' := (String.append_right_inj _).mp e
+  have e2 := congrArg String.toList e'
+  simp only [String.toList_append] at e2
+  have hd : ".".toList = ['.'] := rfl
+  rw [hd] at e2
+  have := append_sep_inj '.' n1.toList n2.toList k.toList k'.toList h1 h2 (by simpa using e2)
+  exact hn (String.toList_inj.mp this)
+
+example : ∀ k k', prefixMap "ha_c1" k ≠ prefixMap "ha_c2" k' :=
+  C12_distinct_names_disjoint "ha_c1" "ha_c2" (by decide) (by decide) (by decide)
+
 /-! ## razing clones that have no auxiliaries below them: the exact effect -/
 
 /-- **Raze, exactly** (PARTIAL: the selected clones have no auxiliaries below them — `LeafObj`, a property of the
@@ -521,6 +700,28 @@ theorem C12_rear_creates_fresh_insular_razeable (u : Nat) (moot frame : String) 
     rearCreate_spec u moot frame s s' c hfresh h
   exact ⟨orig, me, tag, sn, h1, h2, C12_new_tag_fresh _ _ _ h3, h4, h5, h6, h7, h8, h9, h10, h11, h12⟩
 
+/-- **A static clone** (`aux orig as tag [via inode]`, tag written or made by `as mine`; one entry of
+`Framer.resolveMoots` of framer `u`): it is made only from a moot framer that is not in `u`'s lineage (no clone loop)
+under a tag `u` does not use yet; its name `surname_tag` was free and is now registered to the new object; the object
+is a copy of the original's definition, flagged clone, insular exactly for `as mine`, never razeable, without a main
+frame yet (its frame's `resolveAuxLinks` fixes it), with the clause's inode — or the original's for `via mine` — and
+the lineage extended by the original; `u` records it under the tag; it is queued for presolve; nothing else changes. -/
+theorem C12_static_clone_created (u : Nat) (s s' : St) (tag : String) (d : Moot)
+    (hfresh : s.get? s.nextUid = none) (h : resolveMoot u s (tag, d) = .ok s') :
+    ∃ orig me sn, d.clone = tag ∧ tag ≠ "mine" ∧ resolveFramer s d.original (some .moot) = .ok orig ∧
+      s.get? u = some me ∧ me.lineage.contains orig.name = false ∧ lookup me.auxes tag = none ∧
+      surname s u = .ok sn ∧ lookup s.names (sn ++ "_" ++ tag) = none ∧
+      lookup s'.names (sn ++ "_" ++ tag) = some s.nextUid ∧
+      (∃ c', s'.get? s.nextUid = some c' ∧ c'.name = sn ++ "_" ++ tag ∧ c'.original = false ∧
+        c'.insular = d.insular ∧ c'.razeable = false ∧ c'.main = none ∧
+        c'.inode = (if d.inode ≠ "mine" then d.inode else orig.inode) ∧
+        c'.lineage = me.lineage ++ [orig.name] ∧ c'.frames = orig.frames.map Frame.clone ∧ c'.first = orig.first ∧
+        c'.moots = orig.moots ∧ c'.ctl = {}) ∧
+      (∃ me', s'.get? u = some me' ∧ lookup me'.auxes tag = some s.nextUid ∧ me'.frames = me.frames) ∧
+      (∀ v, v ≠ u → v ≠ s.nextUid → s'.get? v = s.get? v) ∧
+      s'.presolvables = s.presolvables ++ [s.nextUid] :=
+  resolveMoot_spec u s s' tag d hfresh h
+
 /-! non-vacuity: a concrete host `ha` (frames `f0`, `f1`) rears the concrete moot `ma` into `f1` -/
 
 def exRearHouse : St :=
@@ -537,5 +738,10 @@ example : exRearHouse.get? exRearHouse.nextUid = none := by decide +kernel
 
 example : (rearCreate 0 "ma" "f1" exRearHouse).toOption.map (fun r => (r.2.name, r.2.uid, r.1.presolvables))
     = some ("ha_ma1", 2, [2]) := by decide +kernel
+
+example : ((resolveMoot 0 exRearHouse ("c1", { original := "ma", clone := "c1", inode := "zed", insular := false })).toOption.map
+    (fun s => (s.names.map (·.1), (s.get? 2).map (fun o => [o.name, o.inode] ++ o.lineage),
+               (s.get? 2).map (fun o => [o.original, o.insular, o.razeable]))))
+    = some (["ha", "ma", "ha_c1"], some ["ha_c1", "zed", "ma"], some [false, false, false]) := by decide +kernel
 
 end Ioflo.Clones
